@@ -205,7 +205,7 @@ def check_L(part, job):
     # ---------------- pure python paths and point-wise evaluation --------------------------------------------
     if L <= Lpy or L in (16, 33, 64):
         full_basis = L <= Lpy
-        pts = [(0.3, 0.1), (1.1, 2.0), (2.0, 4.4), (2.9, 6.0), (np.pi / 2, np.pi)]
+        pts = [(0.3, 0.1), (1.1, 2.0), (0.0, 0.4), (np.pi, 1.0), (1e-4, 0.3), (2.0, 4.4), (2.9, 6.0), (np.pi / 2, np.pi)]
         vecs_c, vecs_r = [], []
         if full_basis:
             for k in range(len(lmc)):
@@ -223,11 +223,11 @@ def check_L(part, job):
             c1, c2 = sht.analysis(f1), sht.analysis_pure_python_cplx(f1)
             if np.abs(c1 - c2).max() > t * 10:
                 fail("python-vs-compiled:analysis-cplx", "pure-Python and compiled complex analysis differ by %.3g" % np.abs(c1 - c2).max())
-            for (th, ph) in (pts if full_basis else pts[:2]):
+            for (th, ph) in (pts if full_basis else pts[:4]):
                 v = sht.evaluate_at_points(a, th, ph)
                 want = complex(ylm.synth_complex(L, a, np.array([th]), np.array([ph]))[0])
                 if abs(v - want) > t * 20:
-                    fail("evaluate_at_points-cplx", "point-wise evaluation differs from the reference by %.3g at (%.2f,%.2f)" % (abs(v - want), th, ph))
+                    fail("evaluate_at_points-cplx:%s" % ("pole" if abs(np.cos(th)) == 1.0 else "generic"), "point-wise evaluation differs from the reference by %.3g at (theta=%.3g, phi=%.2f)" % (abs(v - want), th, ph))
                     break
         for r in vecs_r:
             part.ev(); part.tr(4)
@@ -237,11 +237,11 @@ def check_L(part, job):
             c1, c2 = sht.analysis(f1), sht.analysis_pure_python(f1)
             if np.abs(c1 - c2).max() > t * 10:
                 fail("python-vs-compiled:analysis-real", "pure-Python and compiled real analysis differ by %.3g" % np.abs(c1 - c2).max())
-            for (th, ph) in (pts if full_basis else pts[:2]):
+            for (th, ph) in (pts if full_basis else pts[:4]):
                 v = sht.evaluate_at_points(r, th, ph)
                 want = float(ylm.synth_real(L, r, np.array([th]), np.array([ph]))[0])
                 if abs(v - want) > t * 20:
-                    fail("evaluate_at_points-real", "point-wise evaluation (real) differs from the reference by %.3g at (%.2f,%.2f)" % (abs(v - want), th, ph))
+                    fail("evaluate_at_points-real:%s" % ("pole" if abs(np.cos(th)) == 1.0 else "generic"), "point-wise evaluation (real) differs from the reference by %.3g at (theta=%.3g, phi=%.2f)" % (abs(v - want), th, ph))
                     break
         part.outcome(("python", L))
     part.nontriv(L)
